@@ -175,9 +175,17 @@ func vEmitImms(r *vRand, spec *OpSpec, prog []byte) []byte {
 	return prog
 }
 
-func vPushArg(r *vRand, v uint64, t avmType, prog []byte) []byte {
+func vPushArg(r *vRand, v uint64, st StackType, prog []byte) []byte {
+	t := st.AVMType
 	wantBytes := t == avmBytes || (t == avmAny && r.Bool())
 	if wantBytes {
+		if v >= 3 && t == avmBytes && st.Bound[0] > 0 && st.Bound[0] == st.Bound[1] && st.Bound[0] <= 2000 && r.Intn(10) < 7 {
+			// the declared fixed length (e.g. 32-byte keys, 64-byte signatures)
+			b := r.Bytes(int(st.Bound[0]))
+			prog = append(prog, 0x80)
+			prog = append(prog, vUvarint(uint64(len(b)))...)
+			return append(prog, b...)
+		}
 		if v >= 3 && r.Bool() {
 			b := vRandBytes(r)
 			prog = append(prog, 0x80)
@@ -250,7 +258,7 @@ func vGenStructured(r *vRand, v uint64) []byte {
 		}
 		if r.Intn(4) != 0 {
 			for _, st := range spec.Arg.Types {
-				prog = vPushArg(r, v, st.AVMType, prog)
+				prog = vPushArg(r, v, st, prog)
 			}
 		}
 		prog = append(prog, spec.Opcode)
